@@ -40,7 +40,7 @@ VCS_SUBCOMMANDS_BY_NAME = {
         'fetch'         : "git fetch",
         'ls_tags'       : "git tag --list --no-column",
         'ls_tags_branch': "git tag --list --no-column --merged",
-        'status'        : "git status --porcelain",
+        'status'        : "git status --porcelain --untracked-files=normal",
         'add_path'      : "git add --update -- '{path}'",
         'commit'        : "git commit --message '{message}'",
         'tag'           : "git tag --annotate {tag} --message '{message}'",
